@@ -30,7 +30,7 @@ Definition Wpc (c : cfg) (p : pc) : pc :=
 Definition Wacc (c : cfg) (a : acc) : acc := (fst a, Wid c (snd a)).
 Definition Wth (c : cfg) (th : thread) : thread :=
   {| prog := prog th; tpc := Wpc c (tpc th); held := map (Wid c) (held th); taken := map (Wid c) (taken th);
-     accs := map (Wacc c) (accs th); results := map (Wres c) (results th) |}.
+     accs := map (Wacc c) (accs th); results := map (Wres c) (results th); fbase := wrapk c (fbase th) |}.
 Definition Wsh (c : cfg) (s : shared) : shared :=
   {| hv := hv s; hk := wrapk c (hk s); nxt := nxt s; nv := nv s; sver := map (wrapk c) (sver s);
      ids := map (Wid c) (ids s); fl := fl s; boxed := map (Wid c) (boxed s); wins := map (Wid c) (wins s);
@@ -149,7 +149,7 @@ Lemma tstep_comm : forall su ths t th, Good (unb c) su ths -> nth_error ths t = 
   tstep c (Wsh c su) (Wth c th) = Wres_pair (tstep (unb c) su th).
 Proof.
   intros su ths t th G Hn Hw. pose proof (g_thr _ _ _ G _ _ Hn) as (TA & TB & TP & TQ).
-  unfold win_thb in Hw. unfold tstep. destruct th as [pg p hd tk ac rs]. simpl in *.
+  unfold win_thb in Hw. unfold tstep. destruct th as [pg p hd tk ac rs fb]. simpl in *.
   destruct p; simpl in *.
   - (* Idle *)
     destruct pg as [|o r]; [reflexivity|]. destruct o; simpl.
@@ -252,7 +252,7 @@ Lemma Wst_init : forall progs, Wst c (init (unb c) progs) = init c progs.
 Proof.
   intros. unfold Wst, init. simpl. f_equal.
   - unfold Wsh, init_shared. simpl. now rewrite (wrapk_0 c HM).
-  - rewrite map_map. apply map_ext. reflexivity.
+  - rewrite map_map. apply map_ext. intros a. unfold Wth, mk_thread. simpl. now rewrite (wrapk_0 c HM).
 Qed.
 
 Lemma step_comm : forall su t, Good (unb c) (sh su) (threads su) -> win_stb c su = true ->
@@ -348,8 +348,8 @@ Proof.
     assert (Wa : forall l, map (Wacc c) l = l).
     { induction l as [|[b [v k]] l IH]; simpl; auto. unfold Wacc at 1, Wid. simpl. now rewrite Wk, IH. }
     assert (Wt : forall l, map (Wth c) l = l).
-    { induction l as [|th l IH]; simpl; auto. rewrite IH. f_equal. destruct th as [pg p hd tk ac rs]. unfold Wth. simpl.
-      rewrite !Wi, Wr, Wa. f_equal. destruct p; simpl; rewrite ?Wk; reflexivity. }
+    { induction l as [|th l IH]; simpl; auto. rewrite IH. f_equal. destruct th as [pg p hd tk ac rs fb]. unfold Wth. simpl.
+      rewrite !Wi, Wr, Wa, Wk. f_equal. destruct p; simpl; rewrite ?Wk; reflexivity. }
     destruct sw as [s ths]. unfold Wst. simpl. rewrite Wt. f_equal. destruct s. unfold Wsh. simpl.
     now rewrite Wk, Wm, !Wi.
   - assert (E : sw = Wst c su).
